@@ -104,7 +104,10 @@ def run(c):
     drivers = [("chacha-stream", ["c01"], "TraceC01", "stateless"), ("blake", ["digests", "--family", "blake"], "TraceBlake", "stateless"),
                ("groestl", ["digests", "--family", "groestl"], "TraceGroestl", "stateless"),
                ("threefish", ["tf"], "TraceTF", "stateless", {"MODE": "enc"}),
-               ("threefish-inverse", ["tf"], "TraceTF", "stateless", {"MODE": "inv"})]
+               ("threefish-inverse", ["tf"], "TraceTF", "stateless", {"MODE": "inv"}),
+               # "never changes any result" includes the digests of very long messages (fast-forwarded length counters)
+               ("blake-long", ["c17", "--family", "blake"], "TraceCtrBlake", "stateless"), ("jh-long", ["c17", "--family", "jh"], "TraceCtrJH", "stateless"),
+               ("groestl-long", ["c17", "--family", "groestl"], "TraceCtrGroestl", "stateless"), ("skein-long", ["c17", "--family", "skein"], "TraceCtrSkein", "stateless")]
     fcfgs = [("std-rel", 0), ("nosimd-rel", 0), ("nostd-sse2", 0), ("nounroll-rel", 0)] + ([("nostd-avx2", 0), ("nosimd-dbg", 0), ("nostd-aes", 0)] if c.thorough else [])
     build_violations = len(c.violations) if hasattr(c, "violations") else 0
     try:
